@@ -342,3 +342,102 @@ func TestEveryTickWire(t *testing.T) {
 		vh.Note("TestEveryTickWire: quick tier samples every %dth tick (%d cases); the thorough tier enumerates all 25920000 ticks", stride, e.Count())
 	}
 }
+
+// ---- sequences: a row is a sequence of conversions whose results are looked at afterwards.
+// Every value written / decoded earlier must still be right after the later ones
+// (results must not share storage).
+
+type seqCase struct {
+	Vals []valgen.Val `json:"values_converted_one_after_the_other"`
+}
+
+func runSeq(c seqCase) (f *vh.Failure) {
+	defer func() {
+		if r := recover(); r != nil {
+			f = vh.Failf("C05/sequence-panic", "panic: %v", r)
+		}
+	}()
+	var refs, libs [][]byte
+	var gots []interface{}
+	for _, v := range c.Vals {
+		dt := asetypes.DataType(v.T)
+		ref, err := rc.Encode(v.V)
+		if err != nil {
+			panic(fmt.Sprintf("reference encoder rejects generated value: %v", err))
+		}
+		lib, err := dt.Bytes(le, valgen.ToGo(v), valgen.BytesLength(v))
+		if err != nil {
+			return vh.Failf(class(v), "%s: Bytes failed: %v", dt, err)
+		}
+		got, err := dt.GoValue(le, ref)
+		if err != nil {
+			return vh.Failf(class(v), "%s: GoValue(% x) failed: %v", dt, head(ref), err)
+		}
+		refs, libs, gots = append(refs, ref), append(libs, lib), append(gots, got)
+	}
+	for i, v := range c.Vals {
+		dt := asetypes.DataType(v.T)
+		a, b := libs[i], refs[i]
+		if v.T == rc.TDecN || v.T == rc.TNumN {
+			a, b = stripNumeric(a), stripNumeric(b)
+		}
+		if !bytes.Equal(a, b) {
+			return vh.Failf("C05/earlier-result-changed-by-later-conversion", "value %d of %d (%s %s): the bytes written for it read % x after the later values were written, TDS layout is % x", i+1, len(c.Vals), dt, valgen.Key(v), head(libs[i]), head(refs[i]))
+		}
+		exact := v
+		exact.JitNs = 0
+		if err := valgen.MatchMillis(exact, gots[i]); err != nil {
+			return vh.Failf("C05/earlier-result-changed-by-later-conversion", "value %d of %d (%s): decoded from server bytes % x, looked at after the later values were decoded: %v", i+1, len(c.Vals), dt, head(refs[i]), err)
+		}
+		// and it still encodes to what the server sent
+		if !v.Null {
+			again, err := dt.Bytes(le, gots[i], valgen.BytesLength(v))
+			a, b := again, refs[i]
+			if v.T == rc.TDecN || v.T == rc.TNumN {
+				a, b = stripNumeric(a), stripNumeric(b)
+			}
+			if err != nil || !bytes.Equal(a, b) {
+				return vh.Failf("C05/earlier-result-changed-by-later-conversion", "value %d of %d (%s): decoded from % x, encodes to % x (err %v) after the later values were decoded", i+1, len(c.Vals), dt, head(refs[i]), head(again), err)
+			}
+		}
+	}
+	vh.Label(fmt.Sprintf("sequence-of-%d", len(c.Vals)))
+	key := ""
+	same := true
+	for _, v := range c.Vals {
+		key += valgen.Key(v) + ";"
+		same = same && v.T == c.Vals[0].T
+	}
+	if same {
+		vh.Label("sequence-of-one-type")
+	}
+	vh.NonTrivial("seq:" + key)
+	return nil
+}
+
+func TestSequencesOfConversions(t *testing.T) {
+	gen := func(rt *rapid.T) seqCase {
+		n := rapid.IntRange(2, 6).Draw(rt, "n")
+		var c seqCase
+		tw := valgen.GenTW(rt)
+		oneType := rapid.Bool().Draw(rt, "onetype")
+		for i := 0; i < n; i++ {
+			if !oneType {
+				tw = valgen.GenTW(rt)
+			}
+			v := valgen.Gen(rt, tw)
+			if len(v.S) > 64 {
+				v = valgen.GenFor(rt, tw, v.Prec, v.Scal, 64)
+			}
+			if len(v.B) > 64 {
+				v.B = v.B[:64]
+			}
+			// the decoded value is compared at tick granularity with the value the bytes stand for
+			v.JitNs = 0
+			c.Vals = append(c.Vals, v)
+		}
+		vh.Sample("sequence", c)
+		return c
+	}
+	vh.Check(t, "TestSequencesOfConversions", vh.N(20000, 400000), gen, runSeq)
+}
